@@ -273,8 +273,7 @@ def run(ctx):
                     "tools/translate_loops.py (kernels and _spline_kernel) and LoopIR.exec as the reading of the numba loops",
                     "hand model of the interpolate/gridding wrappers (coq/model/Interp.v), tied by this correspondence",
                     "Kaiser-Bessel kernel values are measured on the implementation (the I0 polynomial is outside the model)"]
-    ctx.validated_only += ["2-D/3-D kernels equal the N-D spec by correspondence only (1-D + batch proved)",
-                           "Kaiser-Bessel polynomial vs the true I0 (compared with numpy.i0 to 3e-6 in the oracle)"]
+    ctx.validated_only += [                           "Kaiser-Bessel polynomial vs the true I0 (compared with numpy.i0 to 3e-6 in the oracle)"]
 
 
 def replay(obj):
